@@ -582,7 +582,7 @@ impl<'a> Interp<'a> {
         if let Some(k) = &key {
             op.insert("key".into(), json!(k));
         }
-        for f in ["entry", "algo", "chunks", "flush_after", "repoll", "stop_after", "end", "bufs", "check", "mid_after", "fully", "reads", "clock_at_commit", "cancel_polls"] {
+        for f in ["entry", "algo", "chunks", "flush_after", "repoll", "stop_after", "end", "bufs", "check", "mid_after", "fully", "reads", "clock_at_commit", "cancel_polls", "abandon_chunks"] {
             if let Some(v) = st.get(f) {
                 op.insert(f.into(), v.clone());
             }
@@ -693,6 +693,34 @@ impl<'a> Interp<'a> {
             _ => norm_algo(opts.get("algo").and_then(|a| a.as_str())).to_string(),
         };
         let streamed = !matches!(entry.as_str(), "write" | "write_algo");
+        if st.get("abandon_chunks").and_then(|a| a.as_array()).map(|a| !a.is_empty()).unwrap_or(false) && st["mode"] == "async" {
+            // some writes were given up after one poll: which of their bytes reached the file is up to the runtime.
+            // Whatever the writer then reports must be self-consistent: the address it returns names a file holding
+            // exactly the bytes of that address, and the key (if any) maps to it.
+            self.probe("write_abandoned_mid_chunk");
+            if r["r"] == "ok" {
+                let got = r["sri"].as_str().unwrap_or("").to_string();
+                let ok = hash::content_rel(&got).map(|rel| disk::check_content_file(&self.cache, &rel, disk::FileKind::Regular)).map(|cf| cf.digest_ok).unwrap_or(false);
+                if !ok {
+                    self.viol("content-integrity", format!("content-integrity/abandoned-chunk/{}", Self::flav(st)), format!("a writer whose earlier write future was dropped committed {} but the file at that address does not hold the bytes of that address", got));
+                }
+            }
+            // the model continues from what is on disk
+            let d = disk::scan(&self.cache);
+            for cf in &d.content {
+                if cf.digest_ok && cf.kind == disk::FileKind::Regular && !self.m.content.contains_key(&cf.rel) {
+                    if let Ok(b) = std::fs::read(self.cache.join(&cf.rel)) {
+                        self.m.content.insert(cf.rel.clone(), Content { orig: b, state: CState::Pristine, is_link: false });
+                    }
+                }
+            }
+            if let Some(k) = key {
+                self.m.keys.entry(k.to_string()).or_insert(None);
+                self.resync_keys_from_disk(false);
+                self.strict_format = false;
+            }
+            return;
+        }
         // bytes actually handed to the writer
         let chunks: Vec<usize> = match st.get("chunks").and_then(|c| c.as_array()) {
             Some(a) if streamed => a.iter().map(|x| x.as_u64().unwrap_or(0) as usize).collect(),
